@@ -532,7 +532,7 @@ class POXCore (EventMixin):
         components = [components]
     if name is None:
       #TODO: Use inspect here instead
-      name = getattr(callback, '__name__')
+      name = getattr(callback, '__name__', None)
       if name is None:
         name = str(callback)
       else:
